@@ -1159,7 +1159,11 @@ STRUCT_SIZE = {"polyseed_data": "sizeof_data", "gf_poly": "sizeof_poly", "struct
 API_INLINE = {"polyseed_free": "polyseed.c", "store32": "polyseed.c"}
 FUNC_CODES = {"compare_str_wrap": 0, "compare_prefix_wrap": 1, "compare_str_noaccent_wrap": 2, "compare_prefix_noaccent_wrap": 3,
               "stdlib_time": -1, "malloc": -2, "free": -3}       # the libc defaults of the dependency table
+COQ_KEYWORDS = {"match", "with", "end", "fun", "let", "in", "if", "then", "else", "return", "as", "fix", "cofix", "forall",
+                "exists", "Type", "Set", "Prop", "at", "using", "where", "for", "struct", "mod"}
 DEP_FIELDS = []
+OWN_CALLERS = {"polyseed_lang_find_word"}   # elsewhere lang_search stays the external function the leaf layer assumes
+API_OWN = set()     # functions the API layer translates itself although the leaf layer treats them as external
 
 
 def strip(n):
@@ -1179,6 +1183,7 @@ class ApiFn(Fn):
         self.uses_ev = False
         self.tmpn = 0
         self.rename = {}
+        self.bsearch_ptrs = set()
         self.locals = []
         self.new_ids = []
         self.char_arrays = set()
@@ -1221,6 +1226,18 @@ class ApiFn(Fn):
             nm = n["referencedDecl"]["name"]
             return self.rename.get(nm, nm)
         return super().lval_name(n)
+
+    def C(self, n):
+        x = n
+        while x.get("kind") == "ParenExpr":
+            x = x["inner"][0]
+        if x.get("kind") == "BinaryOperator" and x.get("opcode") in ("==", "!="):
+            a, b = strip(x["inner"][0]), strip(x["inner"][1])
+            for p, q in ((a, b), (b, a)):
+                if p.get("kind") == "DeclRefExpr" and self.lval_name(p) in self.bsearch_ptrs and cval(self.E(q)) == 0:
+                    t = "(%s =? (-1))" % self.E(p)
+                    return t if x["opcode"] == "==" else "(negb %s)" % t
+        return super().C(n)
 
     def scan_names(self, n, acc):
         if n.get("kind") in ("VarDecl", "ParmVarDecl"):
@@ -1269,9 +1286,48 @@ class ApiFn(Fn):
             t = self.sizeof_text(n)
             if t is not None:
                 return t
+        if k == "BinaryOperator" and n.get("opcode") == "-":
+            a0 = strip(n["inner"][0])
+            if a0.get("kind") == "DeclRefExpr" and self.lval_name(a0) in self.bsearch_ptrs:
+                return self.E(a0)      # (match - base): the result of bsearch is kept as an index, -1 for NULL
         if k == "CallExpr" and self.deps_member(n) is None:
+            c0 = strip(n["inner"][0])
+            if c0.get("kind") == "DeclRefExpr" and c0.get("referencedDecl", {}).get("kind") == "ParmVarDecl":
+                # a call through a function-pointer parameter (the comparer): its two `const void*` arguments are
+                # addresses of `const char*` objects
+                fp = self.lval_name(c0)
+                args = []
+                for a in n["inner"][1:]:
+                    sa = strip(a)
+                    if sa.get("kind") == "UnaryOperator" and sa.get("opcode") == "&":
+                        cp = self.char_ptr_expr(sa["inner"][0])
+                        if cp is not None:
+                            args.append(cp)
+                            continue
+                    raise Unsupported("argument of a call through %s is not the address of a string" % fp)
+                self.env("call_" + fp, "Z" + " -> list Z" * len(args) + " -> Z")
+                return "(call_%s %s %s)" % (fp, fp, " ".join(args))
             f = self.lval_name(n["inner"][0])
-            if f in SIGS and f not in EXTERNS:
+            if f == "bsearch":
+                a = n["inner"][1:]
+                key = strip(a[0])
+                if not (key.get("kind") == "UnaryOperator" and key.get("opcode") == "&"):
+                    raise Unsupported("bsearch key is not the address of a string")
+                kp = self.char_ptr_expr(key["inner"][0])
+                base = strip(a[1])
+                lang_ = None
+                stack = [base]
+                while stack:
+                    x = stack.pop()
+                    if x.get("kind") == "DeclRefExpr" and "polyseed_lang" in x.get("type", {}).get("qualType", ""):
+                        lang_ = self.E(x)
+                        break
+                    stack += [c for c in x.get("inner", []) if isinstance(c, dict)]
+                if kp is None or lang_ is None:
+                    raise Unsupported("bsearch over something that is not a word list")
+                self.env("ext_bsearch", "Z -> list Z -> Z -> Z -> Z")
+                return "(ext_bsearch %s %s %s %s)" % (lang_, kp, self.E(a[2]), self.E(a[4]))
+            if f in SIGS and (f not in EXTERNS or (f in API_OWN and self.name in OWN_CALLERS)):
                 sig = SIGS[f]
                 if sig["outs"] or sig["option"]:
                     raise Unsupported("call of %s inside an expression that is evaluated more than once" % f)
@@ -1451,7 +1507,7 @@ class ApiFn(Fn):
             f = self.lval_name(n["inner"][0])
         except Unsupported:
             return out
-        if f in API_INLINE or f in INLINE or f not in SIGS or f in EXTERNS:
+        if f in API_INLINE or f in INLINE or f not in SIGS or (f in EXTERNS and not (f in API_OWN and self.name in OWN_CALLERS)):
             return out
         sig = SIGS[f]
         if not sig["outs"] and not sig["option"] and f != "utf8_nfkd_lazy":
@@ -1558,6 +1614,15 @@ class ApiFn(Fn):
                 for i in range(16):
                     self.consts["%s_%d" % (arr, i)] = 0
                 return "let %s : list Z := repeat 0 16 in\n" % arr + self.S(rest, k)
+            if "polyseed_cmp" in qt and init:
+                pre = self.hoist(init[0])
+                if pre:
+                    return self.with_hoist(pre, n, rest, k)
+                return self.assign((name, None), self.E(init[0])) + self.S(rest, k)
+            if init and strip(init[0]).get("kind") == "CallExpr" and \
+                    strip(strip(init[0])["inner"][0]).get("referencedDecl", {}).get("name") == "bsearch":
+                self.bsearch_ptrs.add(name)
+                return self.assign((name, None), self.E(strip(init[0]))) + self.S(rest, k)
             if re.match(r"(const )?(struct )?polyseed_data \*$", dq) or "polyseed_data *" in qt:
                 self.struct_ptrs.add(name)
                 if not init:
@@ -1839,6 +1904,8 @@ class ApiFn(Fn):
         for nm, ty in names:
             if any(nm == p + "_" + fld for p in prefixes for fld in ("birthday", "features", "secret", "checksum", "coeff")):
                 self.rename[nm] = nm + "_loc"
+            if nm in COQ_KEYWORDS:
+                self.rename[nm] = nm + "_v"
         text = None
         self.uses_option_final = False
         self.opt_rty = "option (%s)" % rty
@@ -1913,6 +1980,8 @@ API_TARGETS = [
     ("gf.c", "gf_poly_encode", [("polyseed_mul2_table", "list Z"), ("message_coeff", "list Z")], ["message_coeff"], ["polyseed_mul2_table"], "list Z"),
     ("lang.c", "get_comparer", [("lang", "Z")], [], [], "Z"),
     ("dependency.c", "polyseed_inject", "@inject", "@inject", [], "@inject"),
+    ("lang.c", "lang_search", [("lang", "Z"), ("word", "list Z"), ("cmp", "Z")], [], [], "Z"),
+    ("lang.c", "polyseed_lang_find_word", [("lang", "Z"), ("word", "list Z")], [], [], "Z"),
     ("polyseed.c", "polyseed_free", [("seed", "Z")], ["ev"], [], "list cev"),
     ("polyseed.c", "polyseed_get_birthday", data_params("data"), [], [], "Z"),
     ("polyseed.c", "polyseed_get_feature", data_params("seed") + [("mask", "Z")], [], [], "Z"),
@@ -2000,6 +2069,8 @@ def api_main(repo, out, base_info):
                          "Definition locals_%s : list string := [%s]." % (fn, fn, "; ".join('"%s"%%string' % x for x in f.locals)))
             register_sig(repo, src, fn, f, params, outs, gl, rty)
             SIGS[fn].update(SIG_EXTRA.get(fn, {}))
+            if fn in EXTERNS:
+                API_OWN.add(fn)
             known[fn] = list(f.extra_params) + gl
             status[fn] = "ok" + (" (asserts: %s)" % ", ".join(f.asserts) if f.asserts else "")
         except Unsupported as e:
